@@ -120,6 +120,9 @@ def add_motion (c, rng, spec, scale = True, taper = True):
                 ang = [0.0, 0.0, float (np.round (rng.uniform (-180, 180), 2))]
             else:
                 ang = [float (np.round (rng.uniform (-180, 180), 2)) if rng.random () < 0.75 else 0.0 for k in range (3)]
+            if rng.random () < 0.25:
+                # quarter, half and whole turns in either sense, more than one turn
+                ang [2 if gnd else int (rng.integers (0, 3))] = float (rng.choice ([180, -180, 360, -360, 90, -90, 270, 540, 720]))
             tr.append (['rotate', key, ang])
         else:
             v = rng.uniform (-1, 1, 3) * lam * float (rng.choice ([0.3, 3, 50, 200, 3e4]))
@@ -236,6 +239,8 @@ def make_indep (c):
         for key in keys [: int (rng.integers (1, 3))]:
             if rng.random () < 0.65:
                 lst.append (['rotate', key, [float (np.round (rng.uniform (-180, 180), 2)) if rng.random () < 0.8 else 0.0 for k in range (3)]])
+                if rng.random () < 0.25:
+                    lst [-1][2][int (rng.integers (0, 3))] = float (rng.choice ([180, -180, 360, -360, 90, 270, 540]))
             else:
                 lst.append (['translate', key, [float (x) for x in rng.uniform (-1, 1, 3) * lam]])
         per [g ['tag']] = lst
